@@ -191,15 +191,29 @@ class Machine:
             A = type("M%d_A" % uid, (base,), members(0))
             B = type("M%d_B" % uid, (A,), members(1, "B"))
             C = type("M%d_C" % uid, (A,), members(1, "C"))
-            cls = type("M%d_D" % uid, (B, C), with_done(members(2)))
+            cls = type("M%d_D" % uid, (B, C), dict(with_done(members(2)), VERBOSE_LOGGING=(uid % 3 == 0) != shape["auto"]))
         else:
             cls = base
             for ly in range(nl):
                 ns = members(ly)
                 if ly == nl - 1:
                     with_done(ns)
+                    if uid % 3 == 0:
+                        ns["VERBOSE_LOGGING"] = not shape["auto"]     # (AutonomousStateMachine: True by default)
                 cls = type("M%d_L%d" % (uid, ly), (cls,), ns)
         self.cls = cls
+        if uid % 2 == 1:
+            # the base classes of the hierarchy are machines in their own right and may have been instantiated (and
+            # bound) before the class under observation is: what that class is must not depend on it
+            for k, bc in enumerate(reversed(cls.__mro__[1:])):
+                if bc is base or not issubclass(bc, base) or bc.__module__.startswith("magicbot"):
+                    continue
+                try:
+                    b = bc()
+                    b.logger = logging.getLogger("verif.sm.base")
+                    setup_tunables(b, "%s_b%d" % (self.name, k))
+                except Exception:  # noqa - an incomplete base class (no first state, ...) is refused: fine
+                    pass
         self.sm = cls()
         self.sm.logger = logging.getLogger("verif.sm")      # the framework injects a logger
         setup_tunables(self.sm, self.name)
